@@ -820,6 +820,10 @@ def check(prop, tier="quick", seed=0, runs=None, jobs=None, max_s=None, out=sys.
             missing.append(p)
     if missing and agg["n"] >= runs and not agg["violations"]:
         agg["harness_errors"].append({"run_index": -1, "error": "reach probes stuck at zero: %s" % ", ".join(missing)})
+    if hasattr(mod, "coverage_guard") and agg["n"] >= min(runs, 100) and not agg["violations"]:
+        # module-specific sanity of the workload mix (e.g. too many histories that were generated but not evaluated)
+        for msg in mod.coverage_guard(agg["extra"], agg["probes"], agg["n"]) or []:
+            agg["harness_errors"].append({"run_index": -1, "error": "workload guard: %s" % msg})
     if agg["leaked"]:
         agg["harness_errors"].append({"run_index": -1, "error": "%d simulated threads could not be torn down" % agg["leaked"]})
     if agg["n"] == 0:
